@@ -130,3 +130,47 @@ Example C04_tie_solve_tableau_float_example :
   fst (fst (fst (gen_solve_tableau infinity lpF [2;3]%Z 10 false (0x1p-20)%float (0x1p-23)%float (0x1p-43)%float))) = (true, 0%Z, 3%Z) /\
   snd (gen_solve_tableau infinity lpF [2;3]%Z 10 false (0x1p-20)%float (0x1p-23)%float (0x1p-43)%float) = true.
 Proof. vm_compute. repeat split. Qed.
+
+(* _set_criterion_row and get_solution as regenerated from the current source = C04/Model.v: for every tableau with
+   L+1 rows of length nc, basis entries inside the tableau, any (junk) initial contents of x and lambd *)
+Theorem C04_tie_set_criterion_row :
+  forall (T : Type) (NT : Num T) (L nc : nat) (c : list T) (basis : list nat),
+  (length c <= nc)%nat -> length basis = L -> (forall i, (i < L)%nat -> (nth i basis 0 < nc)%nat) ->
+  forall Tb : list (list T), rect (S L) nc Tb ->
+  @gen_set_criterion_row T NT c (zs basis) Tb = (set_criterion_row c basis Tb, true).
+Proof. exact (@gen_set_criterion_row_tie). Qed.
+Print Assumptions C04_tie_set_criterion_row.
+
+Theorem C04_tie_get_solution :
+  forall (T : Type) (NT : Num T) (L nc n : nat) (Tb : list (list T)) (basis : list nat) (bsigns : list bool),
+  rect (S L) nc Tb -> (S L <= nc)%nat -> length basis = L -> length bsigns = L ->
+  forall x lambd : list T, length x = n -> length lambd = L ->
+  @gen_get_solution T NT Tb (zs basis) x lambd bsigns =
+    (let '(xm, lm, fn) := get_solution Tb basis n L bsigns in ((fn, xm, lm), true)).
+Proof. exact (@gen_get_solution_tie). Qed.
+Print Assumptions C04_tie_get_solution.
+
+Example C04_tie_criterion_solution_example :
+  gen_set_criterion_row [1;1]%Q [2;3]%Z [[2;1;1;0;4];[1;3;0;1;6];[9;9;9;9;9]]%Q = (lpQ, true) /\
+  gen_get_solution [[1;0;3#5;-1#5;6#5];[0;1;-1#5;2#5;8#5];[0;0;-2#5;-1#5;-14#5]]%Q [0;1]%Z [7;7]%Q [7;7]%Q [true;true]
+    = ((14#5, [6#5; 8#5], [2#5; 1#5])%Q, true).
+Proof. vm_compute. split; reflexivity. Qed.
+
+(* _initialize_tableau as regenerated from the current source = C04/Model.v (proof in C04/TieGenInit.v): for every
+   n, m, k, well-shaped A_ub (m x n), A_eq (k x n), b_ub, b_eq, and ANY initial contents of a tableau of shape
+   (m+k+1) x (n+m+(m+k)+1) and of a basis array of length m+k *)
+From QE Require Import C04.TieGenInit.
+Theorem C04_tie_initialize_tableau :
+  forall (T : Type) (NT : Num T) (n m k : nat) (A_ub A_eq : list (list T)) (b_ub b_eq : list T),
+  rect m n A_ub -> rect k n A_eq -> length b_ub = m -> length b_eq = k ->
+  forall (Tb : list (list T)) (basis : list Z),
+  rect (S (m + k)) (n + m + (m + k) + 1) Tb -> length basis = (m + k)%nat ->
+  @gen_initialize_tableau T NT A_ub b_ub A_eq b_eq Tb basis =
+    ((fst (initialize_tableau n m k A_ub b_ub A_eq b_eq), zs (snd (initialize_tableau n m k A_ub b_ub A_eq b_eq))), true).
+Proof. exact (@gen_initialize_tableau_tie). Qed.
+Print Assumptions C04_tie_initialize_tableau.
+
+Example C04_tie_initialize_tableau_example :
+  gen_initialize_tableau [[2;1];[-1;-3]]%Q [4;-6]%Q [[1;1]]%Q [-3]%Q (repeat (repeat (7#2)%Q 8) 4) [9;9;9]%Z
+  = (([[2;1;1;0;1;0;0;4]; [1;3;0;-1;0;1;0;6]; [-1;-1;0;0;0;0;1;3]; [2;3;1;-1;0;0;0;13]]%Q, [4;5;6]%Z), true).
+Proof. vm_compute. reflexivity. Qed.
